@@ -334,6 +334,31 @@ def lib_max(ev, a, k, n, mod):
     return homogeneous("MAX", [as_sym(a[0])], (0,))
 
 
+class SortedV:
+    """numpy.sort(x) of a data vector: its last element is max(x), its first min(x); anything else about it is the opaque atom SORT(x)"""
+
+    def __init__(self, x):
+        self.x = x
+
+    def sym_subscript(self, ev, idx, n, mod):
+        if is_sym(idx) and idx.is_Integer and int(idx) == -1:
+            return homogeneous("MAX", [self.x], (0,))
+        if is_sym(idx) and idx.is_Integer and int(idx) == 0:
+            return homogeneous("MIN", [self.x], (0,))
+        return ev.subscript(sp.Function("SORT")(self.x), idx, n, mod)
+
+
+def lib_sort_vec(ev, a, k, n, mod):
+    x = a[0]
+    if is_sym(x) and as_sym(x).free_symbols and len(a) == 1:
+        return SortedV(as_sym(x))
+    from .sym import LIB as _LIB
+    return _LIB["numpy.sort"](ev, a, k, n, mod)
+
+
+lib_sort_vec.kw = {"kind", "axis", "stable"}
+
+
 class SplineV:
     def __init__(self, x, y):
         self.x, self.y = x, y
@@ -516,7 +541,7 @@ DF_LIB = {
     "row.items": lib_row_items, "len": lib_len_seq,
     "pandas.DataFrame": lib_dataframe, "range": lib_range_sym, "numpy.linspace": lib_linspace,
     "numpy.min": lib_min, "numpy.max": lib_max, "numpy.amin": lib_min, "numpy.amax": lib_max,
-    "scipy.interpolate.InterpolatedUnivariateSpline": lib_ius, "scipy.interpolate.UnivariateSpline": lib_us, "numpy.gradient": lib_gradient, "numpy.argsort": lib_argsort,
+    "scipy.interpolate.InterpolatedUnivariateSpline": lib_ius, "scipy.interpolate.UnivariateSpline": lib_us, "numpy.gradient": lib_gradient, "numpy.argsort": lib_argsort, "numpy.sort": lib_sort_vec,
     "identity": lib_identity, "ndarray.to_numpy": lib_to_numpy, "numpy.array": lib_np_array,
     "DataFrame.to_string": lib_df_to_string, "round": lib_round,
 }
